@@ -280,6 +280,17 @@ fn crash_k<K: Kind>(w: &Workload, ctx: &mut Ctx) -> Result<(), Fail> {
         let what = format!("crash after {} .shp ops + {} bytes", sst.0, sst.1);
         // without index
         let res = guard(|| -> Result<Option<usize>, Fail> {
+            // the consuming route first (it must not panic either, and may only return a prefix)
+            if let Ok(r2) = ShapeReader::new(Cursor::new(&img[..])) {
+                if let Ok(v) = r2.read() {
+                    ensure!(v.len() <= n, "invented-shape", "{}, no index: read() returns {} shapes, {} written", what, v.len(), n);
+                    for (i, s) in v.iter().enumerate() {
+                        if let Err(m) = same_after_read(&expect[i], &view_shape(s)) {
+                            fail!("wrong-shape", "{}, no index: read() item {} is not the {}th shape written: {}", what, i, i, m);
+                        }
+                    }
+                }
+            }
             match ShapeReader::new(Cursor::new(&img[..])) {
                 Err(_) => Ok(None),
                 Ok(mut r) => read_prefix(&format!("{}, no index", what), &mut r, &expect).map(Some),
@@ -312,6 +323,17 @@ fn crash_k<K: Kind>(w: &Workload, ctx: &mut Ctx) -> Result<(), Fail> {
                     Err(_) => Ok(()),
                     Ok(mut r) => {
                         read_prefix(&format!("{}, with index", what2), &mut r, &expect)?;
+                        // the consuming route (collects through size_hint): Err, or a prefix
+                        if let Ok(r2) = ShapeReader::with_shx(Cursor::new(&img[..]), Cursor::new(&ximg[..])) {
+                            if let Ok(v) = r2.read() {
+                                ensure!(v.len() <= n, "invented-shape", "{}: read() returns {} shapes, {} written", what2, v.len(), n);
+                                for (i, s) in v.iter().enumerate() {
+                                    if let Err(m) = same_after_read(&expect[i], &view_shape(s)) {
+                                        fail!("wrong-shape", "{}: read() item {} is not the {}th shape written: {}", what2, i, i, m);
+                                    }
+                                }
+                            }
+                        }
                         for i in 0..n + 1 {
                             match r.read_nth_shape(i) {
                                 None | Some(Err(_)) => {}
